@@ -85,7 +85,11 @@ theorem C12_nopool_partial (cfg : Cfg) (hpool : cfg.pool = none) (hci : cfg.ci =
   intro i q hq hnd
   cases hst : q.st with
   | queued =>
-    exact ⟨.start c i, by simp [handlerActions], by simp [step, hpool, updConn, hk, cStart, cSetSt, hq, hst]⟩
+    exact ⟨.start c i, by simp [handlerActions], by simp [step, poolOn, hpool, updConn, hk, cStart, cSetSt, hq, hst]⟩
+  | handed =>
+    -- without a pool no request is ever handed to a worker; the step exists nevertheless only with a pool
+    exfalso
+    exact nopool_never_handed cfg hpool (run_reachable hrun) c k hk q (mem_of_getElem? hq) hst
   | running =>
     exact ⟨.fin c i, by simp [handlerActions], by simp [step, updConn, hk, cFin, cSetSt, hq, hst]⟩
   | finished =>
@@ -184,9 +188,9 @@ both the job queue and the stop request ready, takes the stop request; `Release`
 worker is idle. -/
 def d15Schedule : List Action :=
   [.connect, .accept 0, .register 0, .stamp 0, .send 0 1, .send 0 2, .send 0 3, .read 0 3,
-   .dispatch 0, .enqueue 0, .pTake, .start 0 0, .dispatch 0, .enqueue 0, .pTake, .dispatch 0, .enqueue 0,
+   .dispatch 0, .enqueue 0, .pTake, .pGive, .start 0 0, .dispatch 0, .enqueue 0, .pTake, .dispatch 0, .enqueue 0,
    .stamp 0, .shutdownCall, .setClosed, .acceptExit, .relCall,
-   .fin 0 0, .write 0 0, .dec 0 0, .start 0 1, .pStop, .fin 0 1, .write 0 1, .dec 0 1, .relRet]
+   .fin 0 0, .write 0 0, .dec 0 0, .pGive, .start 0 1, .pStop, .fin 0 1, .write 0 1, .dec 0 1, .relRet]
 
 /-- what the poller and the receiver do afterwards, until the context expires -/
 def d15Rest : List Action :=
@@ -277,15 +281,15 @@ def poolFixedCfg : Cfg := { poolCfg with releaseAfterDrain := true }
 /-- non-vacuity of `C12_fixed_pool`, and the D15 schedule is no longer a run: in the repaired model
 the prefix of `d15Schedule` up to `acceptExit` leaves request 3 queued with the pool alive, and
 `relCall` is not enabled there (it is only after the connection has drained and closed). -/
-example : ∃ s, run poolFixedCfg (d15Schedule.take 21) = some s ∧ s.pst = .live ∧ s.jobQ = [(0, 2)] ∧
+example : ∃ s, run poolFixedCfg (d15Schedule.take 22) = some s ∧ s.pst = .live ∧ s.jobQ = [(0, 2)] ∧
     step poolFixedCfg s .relCall = none ∧ run poolFixedCfg d15Schedule = none := by
   refine ⟨_, rfl, ?_, ?_, ?_, ?_⟩ <;> decide
 
 /-- in the repaired model the same three requests are all answered before the connection is closed,
 then the pool is released and `Shutdown` returns through `CloseIdles` -/
 example : ∃ s, run poolFixedCfg
-    ((d15Schedule.take 21) ++
-     [.fin 0 0, .write 0 0, .dec 0 0, .start 0 1, .pTake, .fin 0 1, .write 0 1, .dec 0 1, .start 0 2,
+    ((d15Schedule.take 22) ++
+     [.fin 0 0, .write 0 0, .dec 0 0, .pGive, .start 0 1, .pTake, .fin 0 1, .write 0 1, .dec 0 1, .pGive, .start 0 2,
       .onShutdownRet, .ciBegin, .ciVisit 0, .ciEnd, .readErr 0 false, .fin 0 2, .write 0 2, .dec 0 2,
       .drainClose 0, .relCall, .pStop, .relRet, .recvRsp 0 0, .recvRsp 0 1, .recvRsp 0 2, .recvMsg 0,
       .recvEof 0, .ciBegin, .ciEnd]) = some s ∧
